@@ -8,7 +8,8 @@
 
     Fragment covered ([None] = outside): new, push, insert (every fresh-value source kind, both
     API paths), pop / remove / swap_remove with the handle dropped, downcast, forgotten, or moved
-    into ANOTHER vector by push or insert, clear, get, at, vector drop. *)
+    into ANOTHER vector by push or insert, clear, get, at, vector drop, reserve / reserve_exact /
+    shrink_to_fit / shrink_to. *)
 From AV.Model Require Import Base Bytes Vec Ops Interp.
 From AV.Spec Require Import VecSpec.
 
@@ -139,6 +140,28 @@ Definition sp_take (c : cfg) (st : astate) (nx : N) (v : nat) (k : tkind) (idx :
       end
   end.
 
+Definition resizable (bk : bkind) : bool := match bk with BHeap | BReloc _ => true | _ => false end.
+
+(** capacity management ([want = Some n]: reserve / reserve_exact for [n] more elements; [None]: shrink_to_fit /
+    shrink_to) never changes the elements; it panics when [len + n] is not representable or exceeds a fixed
+    capacity.  [None] result: the call does not type-check on that backend (outside the language). *)
+Definition sp_capacity (c : cfg) (st : astate) (nx : N) (v : nat) (want : option N) (exact : bool) : option sres :=
+  match get_a v st with
+  | None => None
+  | Some a =>
+      match want with
+      | Some n =>
+          let len := N.of_nat (length (a_xs a)) in
+          if usize_max <? len + n then Some (panic_res POverflow [] st nx)
+          else match acap c (a_bk a) with
+               | None => Some (ok_res [] [] st nx)
+               | Some cap => if len + n <=? cap then Some (ok_res [] [] st nx)
+                             else if exact then None else Some (panic_res PCapacity [] st nx)
+               end
+      | None => if resizable (a_bk a) then Some (ok_res [] [] st nx) else None
+      end
+  end.
+
 Definition spec_step (c : cfg) (st : astate) (nx : N) (o : op) : option sres :=
   match o with
   | ONew dst bk =>
@@ -179,6 +202,10 @@ Definition spec_step (c : cfg) (st : astate) (nx : N) (o : op) : option sres :=
       | None => None
       | Some a => Some (ok_res [] (if c_dg c then map EDrop (a_xs a) else []) (set_a v None st) nx)
       end
+  | OReserve v n => sp_capacity c st nx v (Some n) false
+  | OReserveExact v n => sp_capacity c st nx v (Some n) true
+  | OShrinkToFit v => sp_capacity c st nx v None false
+  | OShrinkTo v _ => sp_capacity c st nx v None false
   | _ => None
   end.
 
